@@ -144,4 +144,8 @@ func VerifC19() {
 	} else {
 		verif.Reach("session-failed")
 	}
+	for _, r := range verif.RaceReports() {
+		verif.Note("race: " + r)
+		verif.Assert("no-data-race", false)
+	}
 }
